@@ -87,8 +87,14 @@ Definition chk (c : bool * string * pyv * pyv * option float) : bool :=
         op, a, b, exp = recs[i]
         run.violation("Python-semantics model of a folding lambda disagrees with the implementation's lambda",
                       {"kind": "correspondence", "operator": op, "x": repr(a), "y": repr(b), "implementation": exp}, no_input=True)
+    # operands on which the correspondence broke are handed to the observation stage, which decides whether
+    # the property itself fails there (folded literal vs the instruction's result on the machine)
+    SUSPECTS[:] = [recs[i][:3] for i in bad[:16]]
     run.cov["lambda_cases_validated"] = len(cases)
     return len(cases)
+
+
+SUSPECTS = []
 
 
 def coq_string_lit(s):
@@ -171,9 +177,20 @@ def observe(run, tier):
     n = 150 if tier == "quick" else 2500
     shapes = ["direct", "var", "fn", "aug"]
     jobs, meta = [], []
-    for i in range(n):
+    directed = [(op, a, b) for op, a, b in SUSPECTS if isinstance(a, (int, float)) and not isinstance(a, bool)
+                and (b is None or (isinstance(b, (int, float)) and not isinstance(b, bool)))]
+    for i in range(n + len(directed)):
         ce = CE(rng)
-        e = ce.gen(rng.randint(1, 3))
+        if i >= n:
+            op, a, b = directed[i - n]
+            if b is None:
+                ce.consts = [a]
+                e = ("un", op if op != "not" else "not ", ("c", 0))
+            else:
+                ce.consts = [a, b]
+                e = ("bin", op, ("c", 0), ("c", 1))
+        else:
+            e = ce.gen(rng.randint(1, 3))
         shape = rng.choice(shapes)
         def wrap(expr_text):
             if shape == "direct":
